@@ -58,9 +58,9 @@ Theorem C04_inverse_affine : forall m mu s Phi a b xi eta, Forall (fun r => leng
   vadd opsR mu (vscale opsR s (vadd opsR (vscale opsR a (mtv opsR m Phi xi)) (vscale opsR b (mtv opsR m Phi eta)))).
 Proof. exact inverse_affine. Qed.
 Print Assumptions C04_inverse_affine.
-(* C04_perm_equivariance_partial: "listing the components in another order permutes the components of
-   the eigenfunctions and leaves eigenvalues and scores unchanged up to sign" is not proved; it is
-   checked as a metamorphic relation on the implementation. *)
+(* C04_perm_equivariance: see the C04_perm_* theorems at the end of this file (re-indexing of the stacked
+   coordinates).  What remains a metamorphic relation checked on the implementation: that the block layout
+   of the code realises such a re-indexing, and the "up to sign" choice of the eigen-solver. *)
 
 Local Close Scope R_scope.
 Local Open Scope Q_scope.
